@@ -86,7 +86,7 @@ class StemTable(object):
             raise MachineryError("None inside a trace record")
         if isinstance(x, float):
             if x != int(x):
-                raise MachineryError("non-integral float %r in a trace record" % x)
+                return -1      # a figure that should be a whole number and is not: never equal to the specification's
             return int(x)
         return x
 
